@@ -265,6 +265,14 @@ def extract(tree):
     unroot_fns = set(fnname for f, fnname, kind, arg in res["roots"] if kind == "unroot" and f == "ev.c")
     res["tchan_unroot"] = {"cb": "janet_thread_chan_cb" in unroot_fns, "close": "cfun_channel_close" in unroot_fns,
                            "deinit": "janet_chan_deinit" in unroot_fns}
+    # janet_stream_close: which parked fibers get the CLOSE notification, under which conditions
+    if "janet_stream_close" not in fn:
+        raise ExtractError("ev.c: function janet_stream_close not found")
+    sc = sites(fn["janet_stream_close"], r"(rf|wf)\s*->\s*ev_callback\s*\(\s*(rf|wf)\s*,\s*JANET_ASYNC_EVENT_CLOSE")
+    res["stream_close_notify"] = [(m.group(1), guards) for m, guards in sc]
+    who = [w for w, g in res["stream_close_notify"]]
+    res["close_notifies_both"] = (sorted(who) == ["rf", "wf"] and
+                                  all(len(g) == 1 and g[0] == "if(%s&&%s->ev_callback)" % (w, w) for w, g in res["stream_close_notify"]))
     sp = [gs for f, fnname, k, gs in res["counter"] if fnname == "janet_ev_handle_selfpipe" and k == "-"]
     if len(sp) != 1:
         raise ExtractError("janet_ev_handle_selfpipe: expected exactly one decrement of listener_count, found %d" % len(sp))
@@ -305,6 +313,12 @@ def render(tree):
     o.append("abbrev tchanUnrootCb : Bool := %s" % ("true" if t["cb"] else "false"))
     o.append("abbrev tchanUnrootClose : Bool := %s" % ("true" if t["close"] else "false"))
     o.append("abbrev tchanUnrootDeinit : Bool := %s" % ("true" if t["deinit"] else "false"))
+    o.append("/-- janet_stream_close: (fiber slot, enclosing conditions) of every JANET_ASYNC_EVENT_CLOSE notification -/")
+    o.append("abbrev streamCloseNotify : List (String × List String) := [" +
+             ", ".join("(%s, [%s])" % (_lstr(w), ", ".join(_lstr(g) for g in gs)) for w, gs in r["stream_close_notify"]) + "]")
+    o.append("/-- are the read-side and the write-side fiber notified independently of each other? -/")
+    o.append("abbrev closeNotifiesBoth : Bool := %s" % ("true" if r["close_notifies_both"] else "false"))
+    o.append("")
     o.append("/-- does janet_ev_handle_selfpipe decrement listener_count only for events with a callback? -/")
     o.append("abbrev selfpipeDecNeedsCb : Bool := %s" % ("true" if r["selfpipe_dec_needs_cb"] else "false"))
     o.append("")
